@@ -52,12 +52,21 @@ func (g *c11Gen) yaml() (text string, expectAccept bool) {
 	sb.WriteString("dbPath: " + filepath.Join(g.dir, "fan2go.db") + "\n")
 	sb.WriteString(pick(r, "", "runFanInitializationInParallel: false\n", "tempRollingWindowSize: 10\nrpmRollingWindowSize: 10\n", "controllerAdjustmentTickRate: 200ms\ntempSensorPollingRate: 200ms\nrpmPollingRate: 1s\n"))
 	id := func(s string) string { return g.prefix + s }
+	// ids only have to be unique within their kind: a third of the configurations use the same names for sensors,
+	// curves and fans (the README itself has a sensor and a fan called cmd_fan)
+	shareIds := r.Intn(3) == 0
+	kindId := func(kind string, i int) string {
+		if shareIds {
+			return id(fmt.Sprintf("n%d", i))
+		}
+		return id(fmt.Sprintf("%s%d", kind, i))
+	}
 	// ---- sensors
 	nS := 1 + r.Intn(3)
 	var sensorIds []string
 	sb.WriteString("sensors:\n")
 	for i := 0; i < nS; i++ {
-		sid := id(fmt.Sprintf("s%d", i))
+		sid := kindId("s", i)
 		sensorIds = append(sensorIds, sid)
 		kind := pick(r, "file", "file", "cmd", "hwmon")
 		entry := "  - id: " + sid + "\n"
@@ -101,7 +110,7 @@ func (g *c11Gen) yaml() (text string, expectAccept bool) {
 	nC := 1 + r.Intn(8)
 	var cs []*c11Curve
 	for i := 0; i < nC; i++ {
-		cs = append(cs, &c11Curve{id: id(fmt.Sprintf("c%d", i))})
+		cs = append(cs, &c11Curve{id: kindId("c", i)})
 	}
 	// a random topological order: curve order[k] may only use members that come earlier in `order`;
 	// the listing order in the file is independent of it (shuffled below)
@@ -242,7 +251,7 @@ func (g *c11Gen) yaml() (text string, expectAccept bool) {
 	nF := 1 + r.Intn(3)
 	sb.WriteString("fans:\n")
 	for i := 0; i < nF; i++ {
-		fid := id(fmt.Sprintf("f%d", i))
+		fid := kindId("f", i)
 		entry := "  - id: " + fid + "\n"
 		kind := pick(r, "file", "file", "cmd", "hwmon", "hwmon")
 		backend := func(kind string) string {
